@@ -423,8 +423,9 @@ func (rpv *RangeProofVerifier) Verify(proof []types.Hash256, root types.Hash256)
 			i += subtreeSize
 		}
 	}
+	roots := rpv.roots // consumed below; the verifier itself keeps the ingested data
 	consume(&proof, 0, rpv.start)
-	consume(&rpv.roots, rpv.start, rpv.end)
+	consume(&roots, rpv.start, rpv.end)
 	consume(&proof, rpv.end, LeavesPerSector)
 	return acc.root() == root
 }
